@@ -87,6 +87,10 @@ def generate(prop, rng):
             # some prior files are symbolic links into ANOTHER copy of the cache (the store was moved)
             for rel in rng.sample(sorted(trees[prior]), rng.randint(1, min(2, len(trees[prior])))):
                 edits.append({"op": "oldcache", "rel": rel})
+        if rng.random() < 0.2:
+            # a dangling symbolic link in the workspace (left by a symlink-type checkout whose object was
+            # collected, or made by the user): at a fresh name or in place of a prior file
+            edits.append({"op": "dangling", "rel": rng.choice(["dl", "d/dl"] + sorted(trees[prior]))})
         if rng.random() < 0.25:
             # two names with identical content in both trees, hard-linked to EACH OTHER by the user
             ci = rng.randrange(len(pool))
@@ -545,6 +549,16 @@ def _exec_c10(sc, ctx, env):
                     env.ctx.clock.advance(10**9)
                     REAL["os.unlink"](pb)
                     REAL["os.link"](pa, pb)
+            elif e["op"] == "dangling":
+                if any(r.startswith(e["rel"] + "/") or e["rel"].startswith(r + "/") for r in list(prior_t) + list(target_t)):
+                    continue
+                if os.path.isdir(p) and not os.path.islink(p):
+                    continue
+                if os.path.lexists(p):
+                    REAL["os.unlink"](p)
+                env.w.mkdirs(os.path.dirname(p))
+                REAL["os.symlink"](os.path.join(env.w.p("cache"), "zz", "gone"), p)
+                ctx.probe("prior_dangling_symlink")
             elif e["op"] == "oldcache":
                 if e["rel"] in prior_t and os.path.lexists(p) and not os.path.isdir(p):
                     data = env.contents[prior_t[e["rel"]]]
